@@ -363,26 +363,106 @@ Qed.
 
 Lemma in_writes_app k a b : in_writes k (a ++ b) = in_writes k a || in_writes k b.
 Proof. unfold in_writes. apply existsb_app. Qed.
+Lemma in_writes_flat_map {A} k (f : A -> list region) l :
+  in_writes k (flat_map f l) = false -> forall a, In a l -> in_writes k (f a) = false.
+Proof.
+  induction l as [|b l IH]; cbn [flat_map]; intros H a Ha; [destruct Ha|].
+  rewrite in_writes_app in H. apply orb_false_iff in H as [H1 H2]. destruct Ha as [<-|Ha]; auto.
+Qed.
+
+(** straight-line step lists; [seqs xs k] runs them and goes on with k *)
+Lemma run_seqs xs k : forall v s,
+  run (seqs xs k) v s = match run_steps xs v s with (s', Ok v') => run k v' s' | (s', Err e) => (s', Err e) end.
+Proof.
+  induction xs as [|x xs IH]; intros v s; cbn [seqs run run_steps]; auto.
+  destruct (do_step x v s) as [s1 [v1|e]]; auto.
+Qed.
+Lemma run_steps_frame xs : forall v s s' r, WF s -> run_steps xs v s = (s', r) ->
+  forall k, in_writes k (steps_writes xs) = false -> lookup k s' = lookup k s.
+Proof.
+  induction xs as [|x xs IH]; intros v s s' r Hwf H k Hk; cbn [run_steps] in H.
+  - injection H as <- _. auto.
+  - unfold steps_writes in Hk. cbn [flat_map] in Hk. rewrite in_writes_app in Hk. apply orb_false_iff in Hk as [Hk1 Hk2].
+    destruct (do_step x v s) as [s1 [v1|e]] eqn:E.
+    + rewrite (IH _ _ _ _ (do_step_wf _ _ _ _ _ Hwf E) H k Hk2). eapply do_step_frame; eauto.
+    + injection H as <- _. eapply do_step_frame; eauto.
+Qed.
+Lemma run_steps_wf xs : forall v s s' r, WF s -> run_steps xs v s = (s', r) -> WF s'.
+Proof.
+  induction xs as [|x xs IH]; intros v s s' r Hwf H; cbn [run_steps] in H.
+  - injection H as <- _. auto.
+  - destruct (do_step x v s) as [s1 [v1|e]] eqn:E.
+    + eapply IH; [|eauto]. eapply do_step_wf; eauto.
+    + injection H as <- _. eapply do_step_wf; eauto.
+Qed.
+
+(** the readings a setter keeps: what is remembered is written by one of the listed setters *)
+Lemma kept_of_in s r l : kept_of s r = Ok l -> forall wr x, In (wr, x) l -> wr = kp_wr r.
+Proof.
+  unfold kept_of. intros H wr x Hin. destruct (eval (kp_own r) s) as [[]|]; try discriminate;
+    try (injection H as <-; destruct Hin; fail).
+  destruct (eval (kp_inh r) s); [|discriminate]. injection H as <-. destruct Hin as [Hin|[]]. injection Hin as <- _. auto.
+Qed.
+Lemma collect_in rs : forall s vals, collect rs s = Ok vals ->
+  forall wr x, In (wr, x) vals -> exists r, In r rs /\ wr = kp_wr r.
+Proof.
+  induction rs as [|r rs IH]; intros s vals H wr x Hin; cbn [collect] in H.
+  - injection H as <-. destruct Hin.
+  - destruct (kept_of s r) as [l|] eqn:E; [|discriminate]. destruct (collect rs s) as [l'|] eqn:E'; [|discriminate].
+    injection H as <-. apply in_app_or in Hin as [Hin|Hin].
+    + exists r. split; [left; auto|]. eapply kept_of_in; eauto.
+    + destruct (IH _ _ E' _ _ Hin) as [r' [A B]]. exists r'. split; [right; auto|auto].
+Qed.
+Lemma write_back_wf vals : forall s, WF s -> WF (fst (write_back vals s)).
+Proof.
+  induction vals as [|[wr x] vals IH]; intros s Hwf; cbn [write_back]; auto.
+  assert (G : WF (fst (match run_steps wr (plain x) s with (s', Ok _) => write_back vals s' | (s', Err e) => (s', Err e) end))).
+  { destruct (run_steps wr (plain x) s) as [s1 [u|e]] eqn:E; cbn [fst]; [apply IH|]; eapply run_steps_wf; eauto. }
+  destruct x; auto.
+Qed.
+Lemma write_back_frame vals : forall s, WF s -> forall k,
+  (forall wr x, In (wr, x) vals -> in_writes k (steps_writes wr) = false) ->
+  lookup k (fst (write_back vals s)) = lookup k s.
+Proof.
+  induction vals as [|[wr x] vals IH]; intros s Hwf k Hk; cbn [write_back]; auto.
+  assert (Hr : forall wr0 x0, In (wr0, x0) vals -> in_writes k (steps_writes wr0) = false) by (intros; eapply Hk; right; eauto).
+  assert (G : lookup k (fst (match run_steps wr (plain x) s with (s', Ok _) => write_back vals s' | (s', Err e) => (s', Err e) end)) = lookup k s).
+  { destruct (run_steps wr (plain x) s) as [s1 [u|e]] eqn:E; cbn [fst].
+    - rewrite IH; auto; [|eapply run_steps_wf; eauto]. eapply run_steps_frame; eauto. eapply Hk; left; eauto.
+    - eapply run_steps_frame; eauto. eapply Hk; left; eauto. }
+  destruct x; auto.
+Qed.
+
+Theorem run_wf p : forall v s, WF s -> WF (fst (run p v s)).
+Proof.
+  induction p as [| e | x p IH | c th IHt el IHe | rs p IH]; intros v s Hwf; cbn [run]; auto.
+  - destruct (do_step x v s) as [s1 [v'|e]] eqn:E; cbn [fst]; eauto using do_step_wf.
+  - destruct (cond_eval c v s); auto.
+  - destruct (collect rs s) as [vals|e]; auto.
+    specialize (IH v s Hwf). destruct (run p v s) as [s1 [u|e]]; cbn [fst] in *; auto.
+    apply write_back_wf; auto.
+Qed.
 
 Theorem run_frame p : forall v s, WF s ->
   forall k, in_writes k (writes p) = false -> lookup k (fst (run p v s)) = lookup k s.
 Proof.
-  induction p as [| e | x p IH | c th IHt el IHe]; intros v s Hwf k Hk; cbn [run writes] in *; auto.
+  induction p as [| e | x p IH | c th IHt el IHe | rs p IH]; intros v s Hwf k Hk; cbn [run writes] in *; auto.
   - rewrite in_writes_app in Hk. apply orb_false_iff in Hk as [Hk1 Hk2].
     destruct (do_step x v s) as [s1 [v'|e]] eqn:E; cbn [fst].
     + rewrite IH; eauto using do_step_wf. eapply do_step_frame; eauto.
     + eapply do_step_frame; eauto.
   - rewrite in_writes_app in Hk. apply orb_false_iff in Hk as [Hk1 Hk2].
     destruct (cond_eval c v s); auto.
+  - rewrite in_writes_app in Hk. apply orb_false_iff in Hk as [Hk1 Hk2].
+    destruct (collect rs s) as [vals|e] eqn:Ec; auto.
+    specialize (IH v s Hwf k Hk1). destruct (run p v s) as [s1 [u|e]] eqn:E; cbn [fst] in *; auto.
+    rewrite write_back_frame; auto.
+    + pose proof (run_wf p v s Hwf) as W. rewrite E in W. exact W.
+    + intros wr x Hin. destruct (collect_in _ _ _ Ec _ _ Hin) as [r [A ->]].
+      apply (in_writes_flat_map k (fun r => steps_writes (kp_wr r)) rs Hk2 r A).
 Qed.
 
-Theorem run_wf p : forall v s, WF s -> WF (fst (run p v s)).
-Proof.
-  induction p as [| e | x p IH | c th IHt el IHe]; intros v s Hwf; cbn [run]; auto.
-  - destruct (do_step x v s) as [s1 [v'|e]] eqn:E; cbn [fst]; eauto using do_step_wf.
-  - destruct (cond_eval c v s); auto.
-Qed.
-
+(** * a getter depends only on its declared reads *)
 (** * a getter depends only on its declared reads *)
 Theorem eval_agree g : forall s s', (forall k, In k (reads g) -> lookup k s = lookup k s') -> eval g s = eval g s'.
 Proof.
@@ -785,6 +865,365 @@ Proof.
     + apply forallb_present_del_sub; auto.
 Qed.
 End FlagProp.
+
+(** * refined frame: get_or_add of an element that exists writes nothing *)
+(** [L]: elements known to be present.  A step that neither removes nor replaces an ancestor-or-self
+    of one of them keeps them present, and its get_or_add of one of them is a no-op. *)
+Definition all_present (L : list path) (s : st) : bool := forallb (fun q => present q s) L.
+Fixpoint step_writes_in (L : list path) (x : step) : list region :=
+  match x with
+  | SEnsure p init => if existsb (path_eqb p) L then [] else step_writes x
+  | SWith _ x' => step_writes_in L x'
+  | _ => step_writes x
+  end.
+Fixpoint step_safe (L : list path) (x : step) : bool :=
+  match x with
+  | SRemove p | SAdd p _ => forallb (fun q => negb (is_prefix p q)) L
+  | SWith _ x' => step_safe L x'
+  | _ => true
+  end.
+Definition steps_writes_in (L : list path) (xs : list step) : list region := flat_map (step_writes_in L) xs.
+Definition steps_safe (L : list path) (xs : list step) : bool := forallb (step_safe L) xs.
+Fixpoint writes_in (L : list path) (p : prog) : list region :=
+  match p with
+  | Done | Raise _ => []
+  | Seq x k => step_writes_in L x ++ writes_in L k
+  | If _ th el => writes_in L th ++ writes_in L el
+  | Keep rs k => writes_in L k ++ flat_map (fun r => steps_writes_in L (kp_wr r)) rs
+  end.
+Fixpoint safe (L : list path) (p : prog) : bool :=
+  match p with
+  | Done | Raise _ => true
+  | Seq x k => step_safe L x && safe L k
+  | If _ th el => safe L th && safe L el
+  | Keep rs k => safe L k && forallb (fun r => steps_safe L (kp_wr r)) rs
+  end.
+
+Lemma do_step_frame_in L x : forall v s s' r, WF s -> all_present L s = true -> do_step x v s = (s', r) ->
+  forall k, in_writes k (step_writes_in L x) = false -> lookup k s' = lookup k s.
+Proof.
+  induction x as [p|p init|p|p init|f|c kd|f|p a c kd|p a t|p a|f x IHx]; intros v s s' r Hwf HL H k Hk;
+    try (eapply do_step_frame; eauto; fail).
+  - cbn [step_writes_in] in Hk. destruct (existsb (path_eqb p) L) eqn:E; [|eapply do_step_frame; eauto].
+    apply existsb_exists in E as [q [Hq Hpq]]. apply path_eqb_eq in Hpq. subst q.
+    unfold all_present in HL. rewrite forallb_forall in HL. specialize (HL p Hq).
+    cbn [do_step] in H. rewrite HL in H. injection H as <- _. auto.
+  - cbn [step_writes_in] in Hk. cbn [do_step] in H. destruct (f v) as [v'|e]; [|injection H as <- _; auto].
+    destruct (do_step x v' s) as [s1 [u|e]] eqn:E; injection H as <- _; eapply IHx; eauto.
+Qed.
+
+Lemma do_step_present L x : forall v s s' r, WF s -> all_present L s = true -> step_safe L x = true ->
+  do_step x v s = (s', r) -> all_present L s' = true.
+Proof.
+  induction x as [p|p init|p|p init|f|c kd|f|p a c kd|p a t|p a|f x IHx]; intros v s s' r Hwf HL Hs H; cbn [do_step step_safe] in *.
+  - destruct (present p s); injection H as <- _; auto.
+  - destruct (present p s) eqn:Ep; [injection H as <- _; auto|].
+    destruct (present (parent p) s); injection H as <- _; auto.
+    unfold all_present in *. rewrite forallb_forall in *. intros q Hq.
+    apply present_add_elem_keep; auto. intros ->. discriminate.
+  - destruct (nonroot p && present (parent p) s); injection H as <- _; auto.
+    unfold all_present in *. rewrite forallb_forall in *. intros q Hq.
+    rewrite present_del_sub, (HL q Hq). destruct q; auto. rewrite (Hs _ Hq). auto.
+  - destruct (nonroot p && present (parent p) s) eqn:E; injection H as <- _; auto.
+    apply andb_true_iff in E as [E1 E2]. apply nonroot_spec in E1.
+    unfold all_present in *. rewrite forallb_forall in *. intros q Hq.
+    rewrite present_add_elem by auto. rewrite (HL q Hq). destruct q; [apply orb_true_r|].
+    rewrite (Hs _ Hq). apply orb_true_r.
+  - destruct (f v); injection H as <- _; auto.
+  - destruct kd as [dflt|]; [destruct (py_eqb (av_val v) dflt)|]; try (injection H as <- _; auto);
+      destruct (enc c (av_val v)); injection H as <- _; auto.
+  - destruct (f s v); injection H as <- _; auto.
+  - destruct (present p s); [|injection H as <- _; auto].
+    destruct (attr_set p a c kd (av_val v) s) as [s1 [u|e]] eqn:E; injection H as <- _;
+      unfold all_present in *; rewrite forallb_forall in *; intros q Hq;
+      rewrite (attr_set_present _ _ _ _ _ _ _ _ q E); auto.
+  - destruct (present p s); injection H as <- _; auto.
+    unfold all_present in *. rewrite forallb_forall in *. intros q Hq. rewrite present_put_attr; auto.
+  - destruct (present p s); injection H as <- _; auto.
+    unfold all_present in *. rewrite forallb_forall in *. intros q Hq. rewrite present_del_attr; auto.
+  - destruct (f v) as [v'|e]; [|injection H as <- _; auto].
+    destruct (do_step x v' s) as [s1 [u|e]] eqn:E; injection H as <- _; eapply IHx; eauto.
+Qed.
+
+Lemma run_steps_present L xs : forall v s s' r, WF s -> all_present L s = true -> steps_safe L xs = true ->
+  run_steps xs v s = (s', r) -> all_present L s' = true.
+Proof.
+  induction xs as [|x xs IH]; intros v s s' r Hwf HL Hs H; cbn [run_steps] in H.
+  - injection H as <- _. auto.
+  - unfold steps_safe in Hs. cbn [forallb] in Hs. apply andb_true_iff in Hs as [Hs1 Hs2].
+    destruct (do_step x v s) as [s1 [v1|e]] eqn:E.
+    + eapply IH; [| |exact Hs2|exact H]; [eapply do_step_wf|eapply do_step_present]; eauto.
+    + injection H as <- _. eapply do_step_present; eauto.
+Qed.
+Lemma run_steps_frame_in L xs : forall v s s' r, WF s -> all_present L s = true -> steps_safe L xs = true ->
+  run_steps xs v s = (s', r) ->
+  forall k, in_writes k (steps_writes_in L xs) = false -> lookup k s' = lookup k s.
+Proof.
+  induction xs as [|x xs IH]; intros v s s' r Hwf HL Hs H k Hk; cbn [run_steps] in H.
+  - injection H as <- _. auto.
+  - unfold steps_safe in Hs. cbn [forallb] in Hs. apply andb_true_iff in Hs as [Hs1 Hs2].
+    unfold steps_writes_in in Hk. cbn [flat_map] in Hk. rewrite in_writes_app in Hk. apply orb_false_iff in Hk as [Hk1 Hk2].
+    destruct (do_step x v s) as [s1 [v1|e]] eqn:E.
+    + rewrite (IH _ _ _ _ (do_step_wf _ _ _ _ _ Hwf E) (do_step_present _ _ _ _ _ _ Hwf HL Hs1 E) Hs2 H k Hk2).
+      eapply do_step_frame_in; eauto.
+    + injection H as <- _. eapply do_step_frame_in; eauto.
+Qed.
+
+(** an invariant of the setters of the remembered values is an invariant of the write-back *)
+Lemma write_back_inv (P : st -> Prop) vals :
+  (forall wr x s0 s1 r, In (wr, x) vals -> P s0 -> run_steps wr (plain x) s0 = (s1, r) -> P s1) ->
+  forall s, P s -> P (fst (write_back vals s)).
+Proof.
+  induction vals as [|[wr x] vals IH]; intros Hp s Hs; cbn [write_back] in *; auto.
+  assert (Hr : forall wr0 x0 s0 s1 r, In (wr0, x0) vals -> P s0 -> run_steps wr0 (plain x0) s0 = (s1, r) -> P s1)
+    by (intros; eapply Hp; eauto; right; auto).
+  assert (G : P (fst (match run_steps wr (plain x) s with (s', Ok _) => write_back vals s' | (s', Err e) => (s', Err e) end))).
+  { destruct (run_steps wr (plain x) s) as [s1 [u|e]] eqn:E; cbn [fst]; [apply IH; auto|]; eapply Hp; eauto; left; auto. }
+  destruct x; auto.
+Qed.
+Lemma write_back_app l1 : forall l2 s,
+  write_back (l1 ++ l2) s = match write_back l1 s with (s', Ok _) => write_back l2 s' | (s', Err e) => (s', Err e) end.
+Proof.
+  induction l1 as [|[wr x] l1 IH]; intros l2 s; cbn [app write_back]; auto.
+  assert (G : match run_steps wr (plain x) s with (s', Ok _) => write_back (l1 ++ l2) s' | (s', Err e) => (s', Err e) end
+              = match (match run_steps wr (plain x) s with (s', Ok _) => write_back l1 s' | (s', Err e) => (s', Err e) end)
+                with (s', Ok _) => write_back l2 s' | (s', Err e) => (s', Err e) end).
+  { destruct (run_steps wr (plain x) s) as [s1 [u|e]]; auto. }
+  destruct x; auto.
+Qed.
+Lemma collect_app rs1 : forall rs2 s,
+  collect (rs1 ++ rs2) s = match collect rs1 s with
+                           | Err e => Err e
+                           | Ok l1 => match collect rs2 s with Err e => Err e | Ok l2 => Ok (l1 ++ l2) end
+                           end.
+Proof.
+  induction rs1 as [|r rs1 IH]; intros rs2 s; cbn [app collect].
+  - destruct (collect rs2 s); auto.
+  - destruct (kept_of s r) as [l|]; auto. rewrite IH. destruct (collect rs1 s) as [l1|]; auto.
+    destruct (collect rs2 s) as [l2|]; auto. rewrite app_assoc. auto.
+Qed.
+
+Lemma write_back_present L rs s vals : collect rs s = Ok vals -> forallb (fun r => steps_safe L (kp_wr r)) rs = true ->
+  forall s1, WF s1 -> all_present L s1 = true ->
+  WF (fst (write_back vals s1)) /\ all_present L (fst (write_back vals s1)) = true.
+Proof.
+  intros Ec Hs s1 Hwf HL.
+  apply (write_back_inv (fun s0 => WF s0 /\ all_present L s0 = true)); auto.
+  intros wr x s0 s3 r Hin [A B] Hr. split; [eapply run_steps_wf; eauto|].
+  destruct (collect_in _ _ _ Ec _ _ Hin) as [r0 [Hr1 ->]]. rewrite forallb_forall in Hs.
+  eapply run_steps_present; eauto.
+Qed.
+
+Theorem run_present L p : safe L p = true -> forall v s, WF s -> all_present L s = true ->
+  all_present L (fst (run p v s)) = true.
+Proof.
+  induction p as [| e | x p IH | c th IHt el IHe | rs p IH]; intros Hs v s Hwf HL; cbn [run safe] in *; auto.
+  - apply andb_true_iff in Hs as [Hs1 Hs2].
+    destruct (do_step x v s) as [s1 [v'|e]] eqn:E; cbn [fst].
+    + apply IH; auto; [eapply do_step_wf|eapply do_step_present]; eauto.
+    + eapply do_step_present; eauto.
+  - apply andb_true_iff in Hs as [Hs1 Hs2]. destruct (cond_eval c v s); auto.
+  - apply andb_true_iff in Hs as [Hs1 Hs2].
+    destruct (collect rs s) as [vals|e] eqn:Ec; auto.
+    pose proof (run_wf p v s Hwf) as W. specialize (IH Hs1 v s Hwf HL).
+    destruct (run p v s) as [s1 [u|e]] eqn:E; cbn [fst] in *; auto.
+    apply (write_back_present L rs s vals Ec Hs2 s1 W IH).
+Qed.
+
+(** the refined frame: with the elements of L present, a setter changes only [writes_in L] *)
+Theorem run_frame_in L p : safe L p = true -> forall v s, WF s -> all_present L s = true ->
+  forall k, in_writes k (writes_in L p) = false -> lookup k (fst (run p v s)) = lookup k s.
+Proof.
+  induction p as [| e | x p IH | c th IHt el IHe | rs p IH]; intros Hs v s Hwf HL k Hk; cbn [run safe writes_in] in *; auto.
+  - apply andb_true_iff in Hs as [Hs1 Hs2].
+    rewrite in_writes_app in Hk. apply orb_false_iff in Hk as [Hk1 Hk2].
+    destruct (do_step x v s) as [s1 [v'|e]] eqn:E; cbn [fst].
+    + rewrite IH; auto; [eapply do_step_frame_in; eauto|eapply do_step_wf; eauto|eapply do_step_present; eauto].
+    + eapply do_step_frame_in; eauto.
+  - apply andb_true_iff in Hs as [Hs1 Hs2].
+    rewrite in_writes_app in Hk. apply orb_false_iff in Hk as [Hk1 Hk2].
+    destruct (cond_eval c v s); auto.
+  - apply andb_true_iff in Hs as [Hs1 Hs2].
+    rewrite in_writes_app in Hk. apply orb_false_iff in Hk as [Hk1 Hk2].
+    destruct (collect rs s) as [vals|e] eqn:Ec; auto.
+    pose proof (run_wf p v s Hwf) as W. pose proof (run_present L p Hs1 v s Hwf HL) as HL1.
+    specialize (IH Hs1 v s Hwf HL k Hk1).
+    destruct (run p v s) as [s1 [u|e]] eqn:E; cbn [fst] in *; auto.
+    rewrite <- IH.
+    apply (write_back_inv (fun s0 => WF s0 /\ all_present L s0 = true /\ lookup k s0 = lookup k s1)); auto.
+    intros wr x s0 s3 r Hin [A [B C]] Hr.
+    destruct (collect_in _ _ _ Ec _ _ Hin) as [r0 [Hr1 ->]]. rewrite forallb_forall in Hs2.
+    split; [eapply run_steps_wf; eauto|]. split; [eapply run_steps_present; eauto|].
+    rewrite <- C. eapply run_steps_frame_in; eauto.
+    apply (in_writes_flat_map k (fun r => steps_writes_in L (kp_wr r)) rs Hk2 r0 Hr1).
+Qed.
+
+(** * the kept readings of a [Keep] setter read the same after an accepted assignment *)
+(** a value-validating typed-attribute setter (the element-level x / y / cx / cy): accepted means the
+    simple type accepts, the chain exists afterwards and the attribute reads [stored] *)
+Lemma check_accepts c kd v s : do_step (SCheck c kd) v s = (s, if accepts c kd (av_val v) then Ok v else
+  match enc c (av_val v) with Err e => Err e | Ok _ => Ok v end).
+Proof.
+  cbn [do_step]. unfold accepts. destruct kd as [d|].
+  - destruct (py_eqb (av_val v) d); cbn [orb]; auto. destruct (enc c (av_val v)); auto.
+  - destruct (enc c (av_val v)); auto.
+Qed.
+
+Lemma forallb_present_in ch s p : forallb (fun l => present (lv_path l) s) ch = true -> In p (map lv_path ch) -> present p s = true.
+Proof.
+  intros H Hin. apply in_map_iff in Hin as [l [<- Hl]]. rewrite forallb_forall in H. auto.
+Qed.
+
+Theorem checked_attr_accepted post ch p d v s s' u :
+  WF s -> In p (map lv_path ch) ->
+  run (Seq (SCheck (ad_codec d) (ad_kind d)) (attr_prog pre_id ch p d)) v s = (s', Ok u) ->
+  accepts (ad_codec d) (ad_kind d) (av_val v) = true
+  /\ eval (attr_gexp post ch p d) s' = bindr (stored (ad_codec d) (ad_kind d) (av_val v)) post
+  /\ WF s' /\ forallb (fun l => present (lv_path l) s') ch = true.
+Proof.
+  intros Hwf Hin H. cbn [run] in H. rewrite check_accepts in H.
+  destruct (accepts (ad_codec d) (ad_kind d) (av_val v)) eqn:Hacc.
+  2:{ exfalso. destruct (attr_set_reject [] [] _ _ _ s Hacc) as [e [He _]]. rewrite He in H. discriminate. }
+  split; auto.
+  destruct (chain_exec ch s) as [s1 b] eqn:Hch.
+  destruct b.
+  - destruct (chain_exec_ok _ _ _ Hwf Hch) as [Hwf1 [Hall _]].
+    pose proof (forallb_present_in _ _ _ Hall Hin) as Hp.
+    destruct (attr_prop_get_set pre_id post ch p d v v s s1 Hwf eq_refl Hch Hp Hacc) as [A [B C]].
+    rewrite H in A, B, C. cbn [fst snd] in *. repeat split; auto.
+    unfold attr_prog in H. cbn [run do_step pre_id] in H. rewrite chain_prog_run, Hch in H. cbn [fst snd run do_step] in H.
+    rewrite Hp in H.
+    destruct (attr_set p (ad_attr d) (ad_codec d) (ad_kind d) (av_val v) s1) as [s2 [u2|e2]] eqn:E; [|discriminate].
+    injection H as <- _. rewrite (forallb_present_attr_set _ _ _ _ _ _ _ _ _ E). auto.
+  - exfalso. unfold attr_prog in H. cbn [run do_step pre_id] in H. rewrite chain_prog_run, Hch in H. cbn [fst snd] in H. discriminate.
+Qed.
+
+(** a reading that is not None found every element of its chain (those whose absence reads None or raises) *)
+Definition reads_none_or_raises (r : res pyval) : bool :=
+  match r with Ok PNone => true | Ok _ => false | Err _ => true end.
+Lemma chain_get_some ch k s x : eval (chain_get ch k) s = Ok x -> x <> PNone ->
+  forallb (fun l => reads_none_or_raises (lv_absent l)) ch = true ->
+  all_present (map lv_path ch) s = true /\ eval k s = Ok x.
+Proof.
+  induction ch as [|l r IH]; cbn [chain_get eval forallb map all_present]; intros H Hx Hall; auto.
+  apply andb_true_iff in Hall as [H1 H2].
+  destruct (present (lv_path l) s) eqn:Ep.
+  - destruct (IH H Hx H2) as [A B]. split; auto.
+  - exfalso. destruct (lv_absent l) as [[]|]; try discriminate. injection H as <-. congruence.
+Qed.
+
+Lemma pyval_none_dec (x : pyval) : x = PNone \/ x <> PNone.
+Proof. destruct x; try (right; discriminate). left; reflexivity. Qed.
+
+Lemma write_back_cons_some wr x rest s : x <> PNone ->
+  write_back ((wr, x) :: rest) s = match run_steps wr (plain x) s with
+                                   | (s', Ok _) => write_back rest s'
+                                   | (s', Err e) => (s', Err e)
+                                   end.
+Proof. intros H. cbn [write_back]. destruct x; auto. congruence. Qed.
+
+Section KeepProp.
+(** [g]: a reading of the object's own value; [L]: the elements it finds when it has a value; [x]: a value *)
+Variables (g : gexp) (L : list path) (x : pyval).
+Hypothesis x_some : x <> PNone.
+Hypothesis own_present : forall s y, eval g s = Ok y -> y <> PNone -> all_present L s = true.
+
+Let P (s : st) : Prop := WF s /\ all_present L s = true /\ eval g s = Ok x.
+
+(** with the elements of L present, the setters of these kept readings keep them present and do not
+    touch what g depends on *)
+Definition keeps_quiet (rs : list keep) : bool :=
+  forallb (fun r => steps_safe L (kp_wr r)
+                    && forallb (fun k => negb (in_writes k (steps_writes_in L (kp_wr r)))) (reads g)) rs.
+
+Lemma keep_P_of s : WF s -> eval g s = Ok x -> P s.
+Proof. intros Hwf H. split; auto. split; auto. eapply own_present; eauto. Qed.
+
+Lemma frame_reads W s s' : forallb (fun k => negb (in_writes k W)) (reads g) = true ->
+  (forall k, in_writes k W = false -> lookup k s' = lookup k s) -> eval g s' = eval g s.
+Proof.
+  intros H Hf. apply eval_agree. intros k Hk. apply Hf. rewrite forallb_forall in H.
+  specialize (H k Hk). apply negb_true_iff in H. auto.
+Qed.
+
+Lemma quiet_keep_P rs vals s : keeps_quiet rs = true -> collect rs s = Ok vals ->
+  forall s1, P s1 -> P (fst (write_back vals s1)).
+Proof.
+  intros Hq Ec s1 Hp. apply (write_back_inv P); auto.
+  intros wr y s0 s3 r Hin [A [B C]] Hr.
+  destruct (collect_in _ _ _ Ec _ _ Hin) as [r0 [Hr1 ->]].
+  unfold keeps_quiet in Hq. rewrite forallb_forall in Hq. specialize (Hq _ Hr1). apply andb_true_iff in Hq as [Q1 Q2].
+  pose proof (run_steps_wf _ _ _ _ _ A Hr) as A'.
+  pose proof (run_steps_present L _ _ _ _ _ A B Q1 Hr) as B'.
+  split; auto. split; auto. rewrite <- C.
+  apply (frame_reads (steps_writes_in L (kp_wr r0))); auto.
+  intros k Hk. eapply run_steps_frame_in; eauto.
+Qed.
+
+Lemma keeps_quiet_app a b : keeps_quiet (a ++ b) = keeps_quiet a && keeps_quiet b.
+Proof. unfold keeps_quiet. apply forallb_app. Qed.
+
+(** C09 frame for a kept reading: whichever way it had the value x before -- as the object's own value,
+    or inherited while the own value was None -- after an ACCEPTED assignment it is the own value x *)
+Theorem keep_reads before after rb main v s :
+  kp_own rb = g ->
+  safe L main = true -> forallb (fun k => negb (in_writes k (writes_in L main))) (reads g) = true ->
+  keeps_quiet (before ++ after) = true ->
+  (forall s0 s1 u, WF s0 -> run_steps (kp_wr rb) (plain x) s0 = (s1, Ok u) -> eval g s1 = Ok x) ->
+  WF s -> snd (run (Keep (before ++ rb :: after) main) v s) = Ok tt ->
+  eval (GOrElse g (kp_inh rb)) s = Ok x ->
+  eval g (fst (run (Keep (before ++ rb :: after) main) v s)) = Ok x.
+Proof.
+  intros Hg main_safe main_frame Hq own_set Hwf Hok Hread.
+  rewrite keeps_quiet_app in Hq. apply andb_true_iff in Hq as [Qb Qa].
+  cbn [run] in *. rewrite collect_app in *. cbn [collect] in *.
+  destruct (collect before s) as [l1|] eqn:E1; [|discriminate].
+  destruct (kept_of s rb) as [lb|] eqn:Eb; [|discriminate].
+  destruct (collect after s) as [l2|] eqn:E2; [|discriminate].
+  pose proof (run_wf main v s Hwf) as W1.
+  destruct (run main v s) as [s1 [u1|e1]] eqn:Em; [|discriminate]. cbn [fst] in W1.
+  cbn [eval] in Hread. unfold kept_of in Eb. rewrite Hg in Eb.
+  destruct (eval g s) as [x0|] eqn:Eg; [|discriminate].
+  destruct (pyval_none_dec x0) as [->|Hx].
+  - (* inherited *)
+    rewrite Hread in Eb. injection Eb as <-.
+    rewrite write_back_app in *.
+    pose proof (write_back_wf l1 s1 W1) as Wa.
+    destruct (write_back l1 s1) as [sa [ua|ea]] eqn:Ea; [|discriminate]. cbn [fst] in Wa.
+    cbn [app] in *. rewrite write_back_cons_some in * by auto.
+    destruct (run_steps (kp_wr rb) (plain x) sa) as [sb [ub|eb]] eqn:Er; [|discriminate].
+    assert (Pb : P sb). { apply keep_P_of; [eapply run_steps_wf; eauto|eapply own_set; eauto]. }
+    apply (quiet_keep_P after l2 s Qa E2 sb Pb).
+  - (* own *)
+    assert (Hx' : x0 = x) by (destruct x0; try congruence; injection Hread; congruence).
+    subst x0. assert (lb = []) as -> by (destruct x; try (injection Eb as <-; reflexivity); congruence). cbn [app] in *.
+    assert (P1 : P s1).
+    { destruct (keep_P_of s Hwf Eg) as [_ [B C]].
+      pose proof (run_present L main main_safe v s Hwf B) as B1. rewrite Em in B1. cbn [fst] in B1.
+      split; auto. split; auto. rewrite <- C.
+      apply (frame_reads (writes_in L main)); auto.
+      intros k Hk. pose proof (run_frame_in L main main_safe v s Hwf B k Hk) as F. rewrite Em in F. exact F. }
+    rewrite write_back_app.
+    pose proof (quiet_keep_P before l1 s Qb E1 s1 P1) as Pa.
+    destruct (write_back l1 s1) as [sa [ua|ea]] eqn:Ea; cbn [fst] in *.
+    + apply (quiet_keep_P after l2 s Qa E2 sa Pa).
+    + apply Pa.
+Qed.
+
+(** read-after-write under [Keep]: writing the kept readings back does not change what the assigned
+    property reads after the assignment proper *)
+Theorem keep_assigned_reads rs main v s :
+  keeps_quiet rs = true -> WF s -> snd (run (Keep rs main) v s) = Ok tt ->
+  eval g (fst (run main v s)) = Ok x ->
+  eval g (fst (run (Keep rs main) v s)) = Ok x.
+Proof.
+  intros Hq Hwf Hok Hm. cbn [run] in *.
+  destruct (collect rs s) as [vals|] eqn:Ec; [|discriminate].
+  pose proof (run_wf main v s Hwf) as W1.
+  destruct (run main v s) as [s1 [u1|e1]] eqn:Em; [|discriminate]. cbn [fst] in *.
+  apply (quiet_keep_P rs vals s Hq Ec s1 (keep_P_of s1 W1 Hm)).
+Qed.
+End KeepProp.
 
 (** * histories *)
 (** A family of properties over one element: abstractly, getters and setters with the three
